@@ -282,6 +282,10 @@ def run_check(prop, level, scenarios, tier, S, predicates=None, rule='', assumpt
         cnt = total['extra'].get('violating_runs:' + fid, cnt)
         kf_seen[fid][1] = cnt
         lines.append('KNOWN-FINDING: property=%s %s [%s; %d run(s) in this batch, e.g. seed %s]' % (prop, f['what'], fid, cnt, v['case'].get('seed')))
+    for f in known.get('findings', []):
+        # every listed open finding of this property is announced, also when this batch did not happen to hit it
+        if f.get('property') == prop and f.get('status', 'open') == 'open' and f['id'] not in kf_seen and f.get('scenario_props', prop) == prop:
+            lines.append('KNOWN-FINDING: property=%s %s [%s; not hit by this batch]' % (prop, f['what'], f['id']))
     viol_records = []
     for (sid, routine, vclass), vs in sorted(new_groups.items()):
         scn = per[sid][1]
